@@ -68,6 +68,10 @@ def sources(ctx):
                          2 ** 64 - 1] + [rng.getrandbits(64) for _ in range(ctx.n(3, 30))])):
         src.append(dict(k="ptr", addr=str(a), ptype=rng.choice(["void *", "char *", "int *", "int(*)(int)", "long **"])))
     src += [dict(k="newptr"), dict(k="array"), dict(k="func", fn="strlen"), dict(k="func", fn="abs")]
+    # sources the property does not list: the model states what the code does with them (errors explicit)
+    src += [dict(k="inf", sign=1), dict(k="inf", sign=-1), dict(k="nan"), dict(k="byteslen", n=0), dict(k="byteslen", n=2),
+            dict(k="byteslen", n=5), dict(k="strlen", n=0), dict(k="strlen", n=2), dict(k="strlen", n=4),
+            dict(k="other", what="none"), dict(k="other", what="list"), dict(k="other", what="object")]
     return src
 
 
@@ -185,6 +189,8 @@ def c_expr(c, tname, size, signed):
     return None
 
 
+UNLISTED = ("inf", "nan", "byteslen", "strlen", "other")
+EXC_CODE = {"TypeError": 1, "OverflowError": 2, "ValueError": 3}
 KIND_CODE = {"signed": 0, "unsigned": 1, "bool": 2, "char": 3, "swchar": 4}
 
 
@@ -221,6 +227,17 @@ def evaluate(ctx, cases):
         kind = tkind(c["t"], signed)
         ctx.hist("source", c["k"])
         ctx.hist("target", "%s%d" % (kind, size))
+        if c["k"] in UNLISTED:
+            # outside the property's list of sources: only the model is compared (explicit error outcomes)
+            code = {"inf": 5, "nan": 6, "byteslen": 7, "strlen": 8, "other": 9}[c["k"]]
+            a = c.get("n", 0)
+            if r["ok"]:
+                obs = (0, int(r["val"]))
+            else:
+                obs = (EXC_CODE.get(r["exc"].split(":")[0], 50), 0)
+            model.setdefault((KIND_CODE[kind], size, code, a, 0) + obs, c)
+            ctx.hist("unlisted_outcome", r["exc"].split(":")[0] if not r["ok"] else "ok")
+            continue
         if not r["ok"]:
             ctx.violation(c, "ffi.cast(%r, <%s>) raised %s; every such cast must succeed" % (c["t"], c["k"], r["exc"]),
                           finding_key(c))
@@ -263,7 +280,7 @@ def evaluate(ctx, cases):
         if ctx.thorough or code != 1 or (a + b) % 2 == 0 or abs(a) < 8:
             # quick: every non-float source, about half of the float sources (all are still checked
             # against the definition and gcc above)
-            model.setdefault((KIND_CODE[kind], size, code, a, b, got), c)
+            model.setdefault((KIND_CODE[kind], size, code, a, b, 0, got), c)
     for c in cases[:2] + cases[len(cases) // 2:len(cases) // 2 + 2] + cases[-2:]:
         ctx.sample(c)
     # ---- gcc: the same conversion compiled, wherever C defines it
@@ -279,10 +296,10 @@ def evaluate(ctx, cases):
                                   finding_key(c))
     # ---- Coq model
     keys = list(model)
-    coqcases = [(cpair(cz(k[0]), cz(k[1]), cz(k[2]), cz(k[3]), cz(k[4])), cz(k[5])) for k in keys]
+    coqcases = [(cpair(cz(k[0]), cz(k[1]), cz(k[2]), cz(k[3]), cz(k[4])), cpair(cz(k[5]), cz(k[6]))) for k in keys]
     ctx.extra["model_evaluations"] = len(coqcases)
     bad, outs, err = vlib.coq_mismatches(["C04.Model"], "fun c => match c with (k, sz, sc, a, b) => cast_obs k sz sc a b end",
-                                         "Z.eqb", coqcases, shard=500, prelude="Open Scope Z_scope.")
+                                         "pair_eqb Z.eqb Z.eqb", coqcases, shard=500, prelude="Open Scope Z_scope.")
     if err:
         ctx.obligation_broken("C04 model evaluation", err)
     for i in bad:
